@@ -201,7 +201,7 @@ func c15SelfTest(c *Ctx) string {
 // workload
 
 var c15Lens = []int{0, 1, 2, 127, 128, 129, 255, 256, 257, 1000, -1} // -1: 3..60
-var c15Coords = []string{"unit", "grid", "negative", "tiny", "large", "collide", "mixed", "late-extent"}
+var c15Coords = []string{"unit", "grid", "negative", "tiny", "large", "collide", "mixed", "late-extent", "zeros", "origin-first"}
 var c15Combos = [][2]string{{"3mf", "stream"}, {"dxf", "batch"}, {"dxf", "stream"}, {"svg", "batch"}, {"svg", "stream"}}
 
 type c15Case struct {
@@ -244,6 +244,10 @@ func c15Coord(r *Rng, cls string, res float64) float64 {
 		return (float64(r.IR(-40, 40)) + off) * res * pickOne(r, []float64{1, 1, 1000})
 	case "mixed":
 		return c15Coord(r, pickOne(r, c15Coords[:6]), res)
+	case "zeros": // the same value with either sign of zero (mirrored geometry), underflowing values, a few small integers
+		return pickOne(r, []float64{0, math.Copysign(0, -1), 0, math.Copysign(0, -1), 1e-50, -1e-50, 1, -1, 2, 0.5})
+	case "origin-first": // everything on one side of the origin; the first items are dots on the origin itself
+		return r.LogR(0.5, 200)
 	}
 	return r.R(-100, 100) // late-extent: the first item is shrunk afterwards
 }
@@ -287,6 +291,23 @@ func c15Gen(r *Rng, n, k, dim int, cls string, res float64) [][][3]float64 {
 			}
 		}
 		items[i] = it
+	}
+	if cls == "origin-first" && n > 0 {
+		sx, sy, sz := r.Sign(), r.Sign(), r.Sign()
+		for i := range items {
+			for j := range items[i] {
+				items[i][j][0] *= sx
+				items[i][j][1] *= sy
+				items[i][j][2] *= sz
+			}
+		}
+		for i := 0; i < r.IR(1, 3) && i < n; i++ {
+			for j := range items[i] {
+				for a := 0; a < 3; a++ {
+					items[i][j][a] = pickOne(r, []float64{0, 0, math.Copysign(0, -1)})
+				}
+			}
+		}
 	}
 	if cls == "late-extent" && n > 0 {
 		for j := range items[0] {
